@@ -93,7 +93,7 @@ Lemma invm_compact : forall s m, InvM s -> InvM (fst (step_compact s m)).
 Proof. intros s m H. unfold step_compact. cbn [fst]. mcore_same s H. Qed.
 Lemma invm_resize : forall s m n, InvM s -> InvM (fst (step_resize s m n)).
 Proof.
-  intros s m n H. unfold step_resize. destruct (n <? 0); [exact H|]. destruct (gbytes s m =? n); [exact H|].
+  intros s m n H. unfold step_resize. destruct (n <? 0); [exact H|]. destruct (gbytes s m =? n); [exact H|]. destruct (2 ^ 60 - 1 <? n); [exact H|].
   destruct (verify_resize (sz s) (rel s) (glsize s m) (glay s m) (n * 8)); [exact H|]. cbn [fst]. mcore_same s H.
 Qed.
 
